@@ -66,36 +66,91 @@ ASSUMPTIONS = [
 # ------------------------------------------------------------ file system
 
 class FS:
-    def __init__(self, files=None, faults=None):
+    """in-memory file system with a logical clock for modification times"""
+
+    def __init__(self, files=None, faults=None, mtimes=None, clock=1000.0):
         self.files = dict(files or {})
         self.faults = dict(faults or {})
+        self.mtimes = dict(mtimes or {})
+        self.clock = clock
         self.reads = 0
         self.fired = []
+        for n in self.files:
+            self.mtimes.setdefault(n, self.clock)
 
     def clone(self):
-        return FS(self.files, self.faults)
+        return FS(self.files, self.faults, self.mtimes, self.clock)
+
+    def write(self, p, content, same_mtime=False):
+        if not same_mtime or p not in self.mtimes:
+            self.clock += 1.0
+            self.mtimes[p] = self.clock
+        self.files[p] = content
+
+    def remove(self, p):
+        self.files.pop(p, None)
+        self.mtimes.pop(p, None)
 
     def exists(self, p):
         return p in self.files
+
+    def _need(self, p):
+        if p not in self.files:
+            self.fired.append('fs.missing')
+            raise FileNotFoundError(2, 'No such file or directory', p)
+
+    def getmtime(self, p):
+        self._need(p)
+        return self.mtimes[p]
+
+    def getsize(self, p):
+        self._need(p)
+        return len(self.files[p].encode('utf-8'))
 
     def open(self, p, *a, **k):
         if self.faults.get(p):
             self.faults[p] -= 1
             self.fired.append('fs.ioerror')
             raise OSError(5, 'simulated I/O error', p)
-        if p not in self.files:
-            self.fired.append('fs.missing')
-            raise FileNotFoundError(2, 'No such file or directory', p)
+        self._need(p)
         self.reads += 1
         return io.StringIO(self.files[p])
 
 
+class _Stat:
+    def __init__(self, fs, p):
+        self.st_mtime = fs.getmtime(p)
+        self.st_mtime_ns = int(self.st_mtime * 1e9)
+        self.st_size = fs.getsize(p)
+        self.st_mode = 0o100644
+
+
 class _Path:
+    """os.path as DT_String sees it: questions about files are answered by
+    the simulated file system, pure path arithmetic by the real module"""
+
     def __init__(self, router):
         self._r = router
 
     def exists(self, p):
         return self._r.cur.exists(p)
+
+    isfile = lexists = exists
+
+    def isdir(self, p):
+        return False
+
+    def getmtime(self, p):
+        return self._r.cur.getmtime(p)
+
+    getctime = getmtime
+
+    def getsize(self, p):
+        return self._r.cur.getsize(p)
+
+    def __getattr__(self, n):
+        import os.path
+        return getattr(os.path, n)
 
 
 class Router:
@@ -107,6 +162,15 @@ class Router:
 
     def open(self, p, *a, **k):
         return self.cur.open(p, *a, **k)
+
+    def stat(self, p, *a, **k):
+        return _Stat(self.cur, p)
+
+    lstat = stat
+
+    def __getattr__(self, n):
+        import os
+        return getattr(os, n)
 
 
 ROUTER = Router()
@@ -318,6 +382,8 @@ def gen_case(seed, tier):
     else:
         sources = [{'src': gen_source(r, cls in ('String', 'File'))}
                    for _ in range(nsrc)]
+        if nsrc > 1 and r.random() < 0.2:
+            sources[r.randrange(1, nsrc)] = {'src': ''}     # edited to empty
     is_file = cls in ('HTMLFile', 'File')
     inputs = [gen_inputs(r) for _ in range(3)]
     ops = []
@@ -339,7 +405,7 @@ def gen_case(seed, tier):
             ops.append([k, r.randrange(3), r.choice([1, 1, 2, 3])])
         elif k == 'munge':
             ops.append(['munge', r.randrange(nsrc),
-                        r.choice([None, None, {'dflt': 'D2'},
+                        r.choice([None, None, {'dflt': 'D2'}, {},
                                   {'dflt': 'D3', 'sk': 'a'}])])
         elif k == 'var':
             ops.append(['var', r.choice(['vv', 'x', 'sk']),
@@ -348,7 +414,8 @@ def gen_case(seed, tier):
             ops.append(['default', r.choice(['dflt', 'vv', 'c']),
                         r.choice(['dd', 1, ''])])
         elif k == 'fs_write':
-            ops.append(['fs_write', r.randrange(nsrc)])
+            ops.append(['fs_write', r.randrange(nsrc),
+                        1 if r.random() < 0.3 else 0])
         else:
             ops.append([k])
     ops.append(['render', r.randrange(3)])
@@ -511,7 +578,8 @@ def run_case(case):
         if not is_file:
             return FS(), state['j']
         if state['cooked'] is not None:
-            return FS({FNAME: state['cooked']}), state['cooked_j']
+            return FS({FNAME: state['cooked']}, None, fs.mtimes,
+                      fs.clock), state['cooked_j']
         return fs.clone(), state['file_j']
 
     def note_cook(ok):
@@ -699,15 +767,17 @@ def run_case(case):
             state['defaults'][op[1]] = op[2]
             since.add('default')
         elif k == 'fs_write':
-            fs.files[FNAME] = src_text(case, op[1])
+            same = len(op) > 2 and bool(op[2])
+            fs.write(FNAME, src_text(case, op[1]), same_mtime=same)
             state['file_j'] = op[1]
             since.add('fs_write')
-            faults['fs.changed'] = faults.get('fs.changed', 0) + 1
+            fk = 'fs.changed_same_mtime' if same else 'fs.changed'
+            faults[fk] = faults.get(fk, 0) + 1
         elif k == 'fs_remove':
-            fs.files.pop(FNAME, None)
+            fs.remove(FNAME)
             since.add('fs_missing')
         elif k == 'fs_restore':
-            fs.files[FNAME] = src_text(case, state['file_j'])
+            fs.write(FNAME, src_text(case, state['file_j']))
         elif k == 'fs_ioerror':
             fs.faults[FNAME] = 1
             since.add('fs_ioerror')
